@@ -91,22 +91,23 @@ Ltac contra :=
         | match goal with H : ~ 0 < 1 / ?y |- _ => apply H; apply Rdiv_lt_0_compat; lra end ].
 (** equal values: syntactically, as polynomials / fractions, or argument by argument *)
 Ltac eqv := first [ reflexivity | ring | lra | lia | (field; lra) | (f_equal; eqv) ].
+(** a leaf that cannot be closed is left open (no backtracking into the case analysis: a difference between
+    source and model must fail fast, not after an exponential search) *)
 Ltac finish :=
   lazymatch goal with
   | |- None = None => reflexivity
-  | |- Some _ = Some _ => first [ reflexivity | f_equal; eqv ]
-  | |- _ => exfalso; contra
+  | |- Some _ = Some _ => try solve [ reflexivity | f_equal; eqv ]
+  | |- _ => try solve [ exfalso; contra ]
   end.
 Ltac go :=
   cbv beta iota zeta; prune;
   lazymatch goal with
   | |- ?l = ?r =>
-      first [ is_done l; first [ is_done r; finish | split_head r; go ]
-            | split_head l; go ]
+      tryif is_done l then (tryif is_done r then finish else (split_head r; go)) else (split_head l; go)
   | |- _ => idtac
   end.
 Ltac abs_cases := repeat match goal with |- context [Rcase_abs ?a] => destruct (Rcase_abs a) end.
-Ltac src_eq := intros; unf; abs_cases; go.
+Ltac src_eq := intros; unf; abs_cases; go; fail "the translated source differs from the model (or the difference is beyond this tactic)".
 
 (** a [Prop]-valued match: split until nothing is left to split *)
 Ltac gop :=
